@@ -376,6 +376,7 @@ class CallMixin:
         run = self.run
         spec = cb.spec if isinstance(cb.spec, dict) else {}
         if spec.get("function"):
+            run.externals = getattr(run, "externals", 0) + 1       # assumed contract, not a value: the path is not cross-checked against CPython
             # a deterministic, total, side-effect-free collaborator: an uninterpreted function of receiver and arguments
             rt = parse_type(spec.get("returns", "any"))
             recv = getattr(cb, "recv", None)
